@@ -540,7 +540,7 @@ def replay_known(ctx, finding):
         shutil.rmtree(tmp, ignore_errors=True)
 
 
-LEVEL_TEXT = ("Theorems C10_flush / C10_content / C10_idem / C10_borrow are proved in Lean for every access sequence, for any "
+LEVEL_TEXT = ("Theorems C10_flush / C10_content / C10_idem / C10_idem_bytes / C10_borrow / C10_noaccess are proved in Lean for every access sequence, for any "
               "tables satisfying decidable predicates (Topo: whatever a writer can reach comes later in LUMP_REBUILD_ORDER; "
               "WritesAll; Frame; RAcyclic; BorrowOK); C10_gen_* re-check those predicates by `decide` on the tables regenerated "
               "from bsp.py on every run. C10_layout proves readFile(writeFile x) = x for the header / lump table / game-lump "
